@@ -681,7 +681,11 @@ def main(argv):
                     # the native test stopped (hard panic) before its last clause: this property's clauses after that point are undecided
                     inconclusive.append("%s: stopped on a clause of another property (%s) before every clause of %s was evaluated" % (o["name"], other[0]["description"][:120], prop))
             elif st == "missing":
-                pass
+                # no result for this obligation (the harness did not build or did not run): never a pass
+                msg = "%s: no result (%s)" % (o["name"], str(r.get("reason") or (r.get("inconclusive") or ["harness did not build or run: lost anchor or changed signature?"])[0])[:200])
+                whole_build_failed = o["engine"] == "kani" and any("kani codegen produced no harness" in i for i in inconclusive)
+                if not whole_build_failed and not any(i.startswith(o["name"] + ":") for i in inconclusive):
+                    inconclusive.append(msg)
             else:
                 why = r.get("inconclusive") or [r.get("error", {}).get("error_type") or r.get("reason") or "no failed check reported (timeout / out of memory / tool failure)"]
                 inconclusive.append("%s: %s" % (o["name"], "; ".join(map(str, why))[:300]))
